@@ -11,7 +11,10 @@ use std::fmt;
 use std::fmt::{Debug, Formatter};
 use std::io::{Cursor, Read, Seek, SeekFrom, Write};
 use std::mem::swap;
+#[cfg(not(feature = "verif-hooks"))]
 use std::sync::{Arc, RwLock};
+#[cfg(feature = "verif-hooks")]
+use {crate::verif_hooks::RwLock, std::sync::Arc};
 use std::time::SystemTime;
 
 type MemoryFsHandle = Arc<RwLock<MemoryFsImpl>>;
